@@ -500,8 +500,11 @@ def walk_sequence(
 ) -> Iterable[Tuple[ast.AST]]:
     """Iterate over all sequences of nodes in scope that match a sequence of templates."""
     uncommon = set()
+    # dict.fromkeys: de-duplicated but in a fixed order. A set of node types iterates in the order
+    # of the addresses of the type objects, which is not the same in every process.
     for node in walk(
-        scope, tuple({*constants.AST_TYPES_WITH_BODY, *constants.AST_TYPES_WITH_ORELSE})
+        scope,
+        tuple(dict.fromkeys((*constants.AST_TYPES_WITH_BODY, *constants.AST_TYPES_WITH_ORELSE))),
     ):
         for body in [getattr(node, "body", []), getattr(node, "orelse", [])]:
             if not body:
